@@ -34,7 +34,7 @@ func init() {
 		Shards:   shards(8, 16),
 		Timeout:  timeouts(12*time.Minute, 90*time.Minute),
 		MinEvals: 300,
-		Required: []string{"op:create", "op:mkdir", "op:open-io", "op:open-trunc", "op:chmod", "op:rename", "op:rename-onto-existing", "op:truncate", "op:truncate-same-fid", "op:multi-wstat", "op:remove", "op:remove-nonempty-dir", "snapshots_compared", "stats_compared", "listings_compared", "reads_compared"},
+		Required: []string{"op:create", "op:mkdir", "op:open-io", "op:open-trunc", "op:chmod", "op:rename", "op:rename-onto-existing", "op:truncate", "op:truncate-same-fid", "op:multi-wstat", "op:remove", "op:remove-nonempty-dir", "op:same-fid-after-wstat", "stops_with_bound_fids", "snapshots_compared", "stats_compared", "listings_compared", "reads_compared"},
 		Run:      runC19,
 	})
 }
@@ -138,7 +138,6 @@ func runC19Seq(w *mon.W, no int) {
 	os.Mkdir(A, 0755)
 	os.Mkdir(B, 0755)
 	sess := p9p.SFileSys(ufs.NewServer(ctx, A))
-	defer sess.Stop(nil)
 	var trace []string
 	w.Case("C19 sequence #%d", no)
 	bad := func(sig, format string, a ...interface{}) {
@@ -165,6 +164,7 @@ func runC19Seq(w *mon.W, no int) {
 	}
 	mutated := false
 	checked := false
+	held := 0
 	steps := 1 + r.Intn(40)
 	for step := 0; step < steps; step++ {
 		w.Eval()
@@ -289,6 +289,7 @@ func runC19Seq(w *mon.W, no int) {
 			var mirror []func() error
 			kind := r.Intn(5)
 			newrel := ""
+			renamedOK := false
 			if kind == 0 || kind == 4 {
 				perm := []uint32{0400, 0600, 0644, 0755, 0777, 0}[r.Intn(6)]
 				d.Mode = perm
@@ -306,7 +307,13 @@ func runC19Seq(w *mon.W, no int) {
 					w.Count("op:rename-onto-existing", 1)
 				}
 				dst := filepath.Join(B, newrel)
-				mirror = append(mirror, func() error { return syscall.Rename(pb, dst) })
+				mirror = append(mirror, func() error {
+					e := syscall.Rename(pb, dst)
+					if e == nil {
+						renamedOK = true
+					}
+					return e
+				})
 				w.Count("op:rename", 1)
 			}
 			if kind >= 2 {
@@ -336,7 +343,27 @@ func runC19Seq(w *mon.W, no int) {
 			if len(mirror) > 0 && !agree("wstat "+rel, ea, eb) {
 				return
 			}
-			sess.Clunk(ctx, f)
+			if len(mirror) > 0 && r.Intn(2) == 0 {
+				// the same fid is used again: it names the entry under its new name if (and only
+				// if) the rename took place
+				cur := pb
+				if renamedOK {
+					cur = filepath.Join(B, newrel)
+				}
+				perm := []uint32{0640, 0604, 0751}[r.Intn(3)]
+				ea := sess.WStat(ctx, f, p9p.Dir{Mode: perm, Length: ^uint64(0)})
+				eb := os.Chmod(cur, os.FileMode(perm))
+				trace = append(trace, fmt.Sprintf("wstat (same fid) mode=%o", perm))
+				w.Count("op:same-fid-after-wstat", 1)
+				if !agree("chmod through the same fid after wstat "+rel, ea, eb) {
+					return
+				}
+			}
+			if r.Intn(5) == 0 {
+				held++ // stays bound until the session stops
+			} else {
+				sess.Clunk(ctx, f)
+			}
 			mutated = true
 		case op < 13: // remove
 			f, ok := walkTo(rel)
@@ -456,6 +483,20 @@ func runC19Seq(w *mon.W, no int) {
 		w.Count("snapshots_compared", 1)
 		if d := diffSnap(sa, sb); d != "" {
 			bad("tree-differs", "after step %d the export and its twin differ: %s", step, d)
+			return
+		}
+	}
+	// the session ends with fids still bound (a client that disconnects without clunking):
+	// the export must be left exactly as it is
+	sess.Stop(nil)
+	if held > 0 {
+		w.Count("stops_with_bound_fids", 1)
+	}
+	sa, ea := snapshot(A)
+	sb, eb := snapshot(B)
+	if ea == nil && eb == nil {
+		if d := diffSnap(sa, sb); d != "" {
+			bad("tree-differs-after-stop", "after the session stopped with %d fid(s) still bound the export and its twin differ: %s", held, d)
 			return
 		}
 	}
